@@ -50,6 +50,7 @@ def run(ctx):
     from . import simple_append as _sa
     _sa.restore_rule(ctx, 'R2.13')
     r212(ctx)
+    r214(ctx)
     from . import c07 as _c07
     _c07.r712(ctx, 'R2.10')
     r27(ctx)
@@ -675,3 +676,188 @@ def r212(ctx, rule='R2.12'):
            wr.loc(tz[0]) if tz else wr.loc(f))
     uses = [k for c in ast.walk(f) if isinstance(c, ast.Call) for k in c.keywords if k.arg == 'isAdjustedToUTC']
     ctx.ob(rule, 'writer.find_type:every-timestamp-type-carries-that-flag', len(uses) == 3 and all(norm(k.value) == 'tz' for k in uses), str([norm(k.value) for k in uses]), wr.loc(f))
+
+
+# --- R2.14: the codec option, shape by shape -------------------------------------------------------------------------
+class _Unknown(Exception):
+    pass
+
+
+class _Crash(Exception):
+    """the expression raises for this option value (a string method on a dict or None)"""
+
+
+_CODEC_SHAPES = [None, '', 'UNCOMPRESSED', 'uncompressed', 'GZIP', 'snappy', {}, {'type': 'GZIP'}, {'type': 'snappy', 'args': {}},
+                 {'args': {'compresslevel': 1}}, {'type': 'UNCOMPRESSED'}]
+
+
+def _ev(e, env):
+    """the few expression forms the codec option goes through, evaluated on a constant option value"""
+    if isinstance(e, ast.Constant):
+        return e.value
+    if isinstance(e, ast.Name):
+        if e.id in env:
+            return env[e.id]
+        if e.id in ('dict', 'str'):
+            return {'dict': dict, 'str': str}[e.id]
+        raise _Unknown(e.id)
+    if isinstance(e, ast.Dict):
+        return {_ev(k, env): _ev(v, env) for k, v in zip(e.keys, e.values)}
+    if isinstance(e, ast.Tuple):
+        return tuple(_ev(x, env) for x in e.elts)
+    if isinstance(e, ast.BoolOp):
+        r = None
+        for v in e.values:
+            r = _ev(v, env)
+            if isinstance(e.op, ast.And) and not r:
+                return r
+            if isinstance(e.op, ast.Or) and r:
+                return r
+        return r
+    if isinstance(e, ast.UnaryOp) and isinstance(e.op, ast.Not):
+        return not _ev(e.operand, env)
+    if isinstance(e, ast.IfExp):
+        return _ev(e.body, env) if _ev(e.test, env) else _ev(e.orelse, env)
+    if isinstance(e, ast.Compare) and len(e.ops) == 1:
+        a, b, op = _ev(e.left, env), _ev(e.comparators[0], env), e.ops[0]
+        if isinstance(op, ast.Is):
+            return a is b
+        if isinstance(op, ast.IsNot):
+            return a is not b
+        if isinstance(op, ast.Eq):
+            return a == b
+        if isinstance(op, ast.NotEq):
+            return a != b
+        if isinstance(op, ast.In):
+            return a in b
+        if isinstance(op, ast.NotIn):
+            return a not in b
+        raise _Unknown(norm(e))
+    if isinstance(e, ast.Call):
+        fn = norm(e.func)
+        if fn == 'isinstance' and len(e.args) == 2:
+            return isinstance(_ev(e.args[0], env), _ev(e.args[1], env))
+        if fn == 'bool' and len(e.args) == 1:
+            return bool(_ev(e.args[0], env))
+        if fn == 'len' and len(e.args) == 1:
+            return len(_ev(e.args[0], env))
+        if fn == 'getattr' and len(e.args) == 2 and norm(e.args[0]).endswith('CompressionCodec'):
+            return ('codec', _ev(e.args[1], env))
+        if isinstance(e.func, ast.Attribute) and e.func.attr in ('upper', 'lower') and not e.args:
+            v = _ev(e.func.value, env)
+            if not isinstance(v, str):
+                raise _Crash('`%s` with the option %r' % (norm(e), v))
+            return getattr(v, e.func.attr)()
+        if isinstance(e.func, ast.Attribute) and e.func.attr == 'get' and 1 <= len(e.args) <= 2:
+            v = _ev(e.func.value, env)
+            if not isinstance(v, dict):
+                raise _Crash('`%s` with the option %r' % (norm(e), v))
+            return v.get(_ev(e.args[0], env), _ev(e.args[1], env) if len(e.args) == 2 else None)
+    raise _Unknown(norm(e)[:60])
+
+
+def _mentions(e, names):
+    return any(isinstance(x, ast.Name) and x.id in names for x in ast.walk(e))
+
+
+def r214(ctx, rule='R2.14'):
+    """write_column: for every shape the codec option can take (None, empty text, a codec name in either case, an empty
+    dict, a dict with / without 'type' and 'args'), the codec recorded in the chunk metadata is the one the pages of the
+    chunk were actually compressed with - at each of the three compress_data sites.  The conditions are read from the
+    source and evaluated on the option value alone (finite table); conditions on other variables pick the site, not
+    the codec, and are taken as satisfied."""
+    wr = ctx.repo['writer']
+    f = wr.func('write_column')
+    cd = ctx.repo['compression'].func('compress_data')
+    dflt = [c.args[1].value for c in ast.walk(cd) if isinstance(c, ast.Call) and norm(c.func) == 'compression.get' and len(c.args) == 2
+            and isinstance(c.args[0], ast.Constant) and c.args[0].value == 'type' and isinstance(c.args[1], ast.Constant)]
+    if len(dflt) != 1:
+        raise AnalysisError('compress_data: default codec of a dict option not found')
+    cfg = CFG(f)
+    body = list(f.body)
+    loops = [i for i, st in enumerate(body) if isinstance(st, ast.For) and any(isinstance(c, ast.Call) and callee(c) == 'compress_data' for c in ast.walk(st))]
+    if not loops:
+        raise AnalysisError('write_column: page loop with compress_data not found')
+    pre, post = body[:loops[0]], body[loops[0] + 1:]
+    names = {'compression'}
+    # variables defined from the option alone inside the function (is_compressed, algorithm)
+    derived = {}
+    for st in walk_no_nested(f):
+        if isinstance(st, ast.Assign) and len(st.targets) == 1 and isinstance(st.targets[0], ast.Name) and st.targets[0].id != 'compression':
+            if _mentions(st.value, names) and all(isinstance(x, ast.Name) and (x.id in names or x.id in ('isinstance', 'dict', 'str', 'bool', 'len'))
+                                                   for x in ast.walk(st.value) if isinstance(x, ast.Name)):
+                derived.setdefault(st.targets[0].id, []).append(st)
+
+    def run_block(stmts, env):
+        """straight-line statements and ifs that concern the option; everything else is skipped"""
+        for st in stmts:
+            if isinstance(st, ast.If) and _mentions(st.test, set(env)) and not _mentions(st.test, _others(st.test, env)):
+                run_block(st.body if _ev(st.test, env) else st.orelse, env)
+            elif isinstance(st, ast.Assign) and len(st.targets) == 1 and isinstance(st.targets[0], ast.Name) and \
+                    st.targets[0].id in ('compression', 'algorithm') :
+                env[st.targets[0].id] = _ev(st.value, env)
+
+    def _others(e, env):
+        return {x.id for x in ast.walk(e) if isinstance(x, ast.Name) and x.id not in env and x.id not in ('isinstance', 'dict', 'str', 'bool', 'len')}
+
+    sites = [c for c in walk_no_nested(f) if isinstance(c, ast.Call) and callee(c) == 'compress_data']
+    ctx.floor(rule, 'compress_data sites in write_column', len(sites), 3)
+    codec_kw = [kwarg(c, 'codec') for c in ast.walk(f) if isinstance(c, ast.Call) and callee(c) == 'ThriftObject.from_fields'
+                and c.args and const_value(c.args[0]) == 'ColumnMetaData']
+    if len(codec_kw) != 1 or codec_kw[0] is None:
+        raise AnalysisError('write_column: codec of the ColumnMetaData not found')
+    n = 0
+    for shape in _CODEC_SHAPES:
+        label = repr(shape).replace(' ', '')
+        try:
+            env = {'compression': shape}
+            run_block(pre, env)
+            opt = env['compression']
+            env2 = dict(env)
+            run_block(post, env2)
+            rec = _ev(codec_kw[0], env2)
+            rec = rec[1].upper() if isinstance(rec, tuple) else 'UNCOMPRESSED'
+            for k, c in enumerate(sites):
+                st = None
+                for nd in cfg.nodes:
+                    if nd.stmt is not None and any(y is c for y in ast.walk(nd.stmt)) and not isinstance(nd.stmt, (ast.If, ast.For, ast.While, ast.Try, ast.With)):
+                        st = nd.stmt
+                applied = True
+                for e, fld in cfg.enclosing_tests(st):
+                    if not isinstance(e, ast.If):
+                        continue
+                    t = e.test
+                    if not (_mentions(t, names) or _mentions(t, set(derived))):
+                        continue
+                    env3 = dict(env)
+                    for dname, dsts in derived.items():
+                        if _mentions(t, {dname}):
+                            env3[dname] = _ev(dsts[-1].value, env3)
+                    if _others(t, env3):
+                        continue
+                    v = bool(_ev(t, env3))
+                    applied = applied and (v if fld == 'body' else not v)
+                if not (len(c.args) >= 2 and norm(c.args[1]) == 'compression'):
+                    raise AnalysisError('compress_data called with %s' % norm(c))
+                if applied:
+                    used = (opt.get('type', dflt[0]) if isinstance(opt, dict) else opt)
+                    used = used.upper() if isinstance(used, str) else 'UNCOMPRESSED'
+                else:
+                    used = 'UNCOMPRESSED'
+                n += 1
+                if applied and used == '':
+                    # not a codec name: compress_data refuses it (RuntimeError), nothing is written
+                    ctx.ob(rule, 'writer.write_column:recorded-codec-is-the-codec-applied:option=%s:site%d' % (label, k + 1), True,
+                           'refused by compress_data', wr.loc(c), nontrivial=False)
+                    continue
+                ctx.ob(rule, 'writer.write_column:recorded-codec-is-the-codec-applied:option=%s:site%d' % (label, k + 1), used == rec,
+                       'with compression=%s the pages at this site are %s, the chunk metadata records codec %s: a reader '
+                       'decompresses with the recorded codec' % (label, 'compressed with ' + used if applied else 'left uncompressed', rec),
+                       wr.loc(c))
+        except _Crash as ex:
+            n += 1
+            ctx.ob(rule, 'writer.write_column:codec-option-shape-is-handled:option=%s' % label, False,
+                   'a documented form of the codec option makes write_column fail: %s raises' % ex, wr.loc(f))
+        except _Unknown as ex:
+            raise AnalysisError('R2.14: expression form not understood for option %s: %s' % (label, ex))
+    ctx.floor(rule, 'option shape x site evaluations', n, 30)
